@@ -10,6 +10,11 @@ Definition mergedir_sel : bool := shape_sel mergedir_sends mergedir_group_ctx.
 Lemma mergedir_sel_true : mergedir_sel = true.
 Proof. vm_compute. reflexivity. Qed.
 
+(* the parsers seed the shared accumulator (header, options) inside a sync.Once and touch it nowhere else:
+   the protocol model's single atomic seeding step that happens before every hand-off to the merger *)
+Lemma mergedir_shared_writes_ok : shared_writes_ok mergedir_shared_writes = true.
+Proof. vm_compute. reflexivity. Qed.
+
 Lemma walkdir_loop_complete : loop_complete walkdir_early_returns = true.
 Proof. vm_compute. reflexivity. Qed.
 
